@@ -718,15 +718,24 @@ End LoadFolds.
 Lemma in_seq_1024 j : j < 1024 -> In (N.to_nat j) (seq 0 1024).
 Proof. intros H. apply in_seq. lia. Qed.
 
-(* the state Load builds from tables that agree with the in-memory ones *)
-Lemma R_reload s m o t : R s m ->
+(* the state Load builds from tables that agree with the in-memory ones; stated over an arbitrary index
+   list l covering 0..1023 so that nothing in the proof (or its re-check at Qed) can unfold seq 0 1024 *)
+Lemma R_reload_gen s m o t (l : list nat) :
+  (forall j, j < 1024 -> In (N.to_nat j) l) -> (forall i, In i l -> (i < 1024)%nat) ->
+  R s m ->
   (forall j, j < 1024 -> getN o j = getN (offs s) j) ->
   (forall j, j < 1024 -> getN t j = getN (tss s) j) ->
-  R {| offs := o; tss := t; used := load_used o; hwm := load_hwm o; img := img s |} m.
+  R {| offs := o; tss := t;
+       used := fold_left (fun u i => let w := getN o (N.of_nat i) in
+                        if sec_of w =? 0 then u else mark u (sec_of w) (N.to_nat (cnt_of w)) true)
+                 l (setB (setB (PositiveMap.empty bool) 0 true) 1 true);
+       hwm := fold_left (fun h i => let w := getN o (N.of_nat i) in
+                        if sec_of w =? 0 then h else N.max h (sec_of w + cnt_of w)) l 2;
+       img := img s |} m.
 Proof.
-  intros HR Ho Ht. pose proof (R_log s m HR) as Hlog. pose proof (R_size s m HR) as Hsz.
-  assert (Hoi : forall i, In i (seq 0 1024) -> getN o (N.of_nat i) = getN (offs s) (N.of_nat i)).
-  { intros i Hi. apply in_seq in Hi. apply Ho. lia. }
+  intros Hl1 Hl2 HR Ho Ht. pose proof (R_log s m HR) as Hlog. pose proof (R_size s m HR) as Hsz.
+  assert (Hoi : forall i, In i l -> getN o (N.of_nat i) = getN (offs s) (N.of_nat i)).
+  { intros i Hi. apply Hl2 in Hi. apply Ho. lia. }
   constructor; cbn [img offs tss used hwm].
   - exact Hlog.
   - exact Hsz.
@@ -737,27 +746,25 @@ Proof.
     pose proof (R_nonzero s m j dj HR Hj Hm) as Hnz.
     destruct (R_present s m HR j dj Hj Hm) as (Q1 & Q2 & Q3 & Q4 & Q5 & Q6 & Q7). cbv zeta in *.
     repeat split; auto.
-    unfold load_hwm.
-    pose proof (hfold_covers o (seq 0 1024) 2 (N.to_nat j) (in_seq_1024 j Hj)) as G. cbv zeta in G.
+    pose proof (hfold_covers o l 2 (N.to_nat j) (Hl1 j Hj)) as G. cbv zeta in G.
     rewrite N2Nat.id, Ho in G by exact Hj. apply G. lia.
   - intros j k Hj Hoj Hk. rewrite Ho in Hoj, Hk by exact Hj.
     destruct (R_entry s m j HR Hj Hoj) as [E1 E2].
-    unfold load_used.
-    apply (ufold_covers o (seq 0 1024) _ (N.to_nat j) k (in_seq_1024 j Hj));
+    apply (ufold_covers o l _ (N.to_nat j) k (Hl1 j Hj));
       rewrite N2Nat.id, Ho by exact Hj; [lia|exact Hk].
-  - unfold load_used. split; apply ufold_mono.
+  - split; apply (ufold_mono o l).
     + rewrite getB_set_other by lia. apply getB_set_same.
     + apply getB_set_same.
   - intros a b k Ha Hb Hab Hoa Hob Hka Hkb. rewrite Ho in Hoa, Hka by exact Ha. rewrite Ho in Hob, Hkb by exact Hb.
     apply (R_disj s m HR a b k Ha Hb Hab Hoa Hob Hka Hkb).
-  - intros k Hk. unfold load_used in Hk. apply ufold_sound in Hk.
-    unfold load_hwm. destruct Hk as [Hk|(i & Hi & Hs & Hr)].
-    + pose proof (hfold_ge o (seq 0 1024) 2) as G. cbv zeta in G.
+  - intros k Hk. apply (ufold_sound o l) in Hk.
+    destruct Hk as [Hk|(i & Hi & Hs & Hr)].
+    + pose proof (hfold_ge o l 2) as G. cbv zeta in G.
       rewrite !getB_set in Hk. destruct (N.eqb_spec k 1); [lia|]. destruct (N.eqb_spec k 0); [lia|].
       rewrite getB_empty in Hk. discriminate.
-    + pose proof (hfold_covers o (seq 0 1024) 2 i Hi Hs) as G. cbv zeta in G. unfold run_of in Hr. lia.
-  - unfold load_hwm. apply hfold_le.
-    + intros i Hi Hs. rewrite (Hoi i Hi) in *. apply in_seq in Hi.
+    + pose proof (hfold_covers o l 2 i Hi Hs) as G. cbv zeta in G. unfold run_of in Hr. lia.
+  - apply (hfold_le o l).
+    + intros i Hi Hs. rewrite (Hoi i Hi) in *. apply Hl2 in Hi.
       assert (Hnz : getN (offs s) (N.of_nat i) <> 0).
       { intros E. apply Hs. rewrite E. reflexivity. }
       destruct (m (N.of_nat i)) as [di|] eqn:Em.
@@ -765,6 +772,15 @@ Proof.
         pose proof (R_hwlim s m HR). lia.
       * exfalso. apply Hnz. apply (R_absent s m HR (N.of_nat i) ltac:(lia) Em).
     + unfold sector_limit. change (2^23) with 8388608. lia.
+Qed.
+
+Lemma R_reload s m o t : R s m ->
+  (forall j, j < 1024 -> getN o j = getN (offs s) j) ->
+  (forall j, j < 1024 -> getN t j = getN (tss s) j) ->
+  R {| offs := o; tss := t; used := load_used o; hwm := load_hwm o; img := img s |} m.
+Proof.
+  intros HR Ho Ht.
+  exact (R_reload_gen s m o t (seq 0 1024) in_seq_1024 (fun i Hi => proj2 (proj1 (in_seq _ _ _) Hi)) HR Ho Ht).
 Qed.
 
 Theorem load_correct s m : R s m ->
